@@ -4,6 +4,8 @@ plus the obligations on the reader primitives everything rests on.  See DESIGN.m
 import re
 from msa import taint as T
 from msa import ast as A
+from msa import guards as G
+from msa import pair as P
 from msa import cfg as C
 from msa import reach as R
 from msa import sticky as S
@@ -29,6 +31,45 @@ ANCHOR_FILES = [r'^message/', r'^support/DataUnflattener', r'^iogateway/', r'^zl
 MUST_KINDS = ('READER', 'COPY', 'INDEX', 'PTRADD')
 
 
+_WIDTH = {'signed char': 8, 'char': 8, 'short': 16, 'int': 32, 'long': 64, 'long long': 64}
+_UWIDTH = {'unsigned char': 8, 'unsigned short': 16, 'unsigned int': 32, 'unsigned long': 64, 'unsigned long long': 64}
+
+
+def sign_extend_sites(res, fx, eng, f, rule, is_src=None):
+    """a value decoded from received bytes as a SIGNED integer narrower than the unsigned parameter it is passed to is sign-extended: a 16-bit length 0x8000..0xFFFF becomes 4 G - n.
+    Obligation per such argument: the value is made unsigned at its own width first (cast to the unsigned type of the same width, or masked), or a dominating test says it is >= 0."""
+    ft = eng.ft(f) if eng is not None else None
+    n_sites = 0
+    for c in f.walk():
+        if not c.is_call():
+            continue
+        g = fx.funcs.get(c.get('fn')) if c.get('fn') else None
+        if g is None or not g.params:
+            continue
+        args = ft.explicit_args(c) if ft is not None else (c.args()[1:] if c['k'] == 'CXXOperatorCallExpr' and len(c.args()) == len(g.params) + 1 else c.args())
+        for k, a in enumerate(args):
+            if k >= len(g.params):
+                break
+            at = a.type().replace('const ', '').strip()
+            pt = g.ptype(g.params[k]).replace('const ', '').strip()
+            if at not in _WIDTH or pt not in _UWIDTH or _UWIDTH[pt] <= _WIDTH[at]:
+                continue
+            if 'v' in A.strip_casts(a) or not (is_src(a) if is_src is not None else T.SRC in ft.et(a)):
+                continue
+            n_sites += 1
+            nonneg = False
+            for (cn, t) in G.atoms_at(f, c):
+                for (l_, op_, r_) in A.rel_forms(cn, t):
+                    if op_ in ('>=', '>') and r_.get('v') is not None and r_['v'] >= 0 and A.render_key(l_) == A.render_key(a):
+                        nonneg = True
+            res.ob(rule, f.where(c), '%s: wire-derived signed %s passed as %s `%s` of %s is known to be non-negative' % (f.q.split('::')[-1], at, pt, g.params[k].get('n'), g.q.split('::')[-1]), nonneg, function=f.q,
+                   key='%s|%s|sign-extend:%s:%d' % (rule, f.q, g.q.split('::')[-1], k),
+                   message='%s passes `%s` (a %d-bit signed value decoded from received bytes) to the %d-bit unsigned parameter `%s` of %s: values with the top bit set are sign-extended to '
+                           '2^%d - n, so a frame that declares a length of 32768..65535 is taken to be about 4 GB long and the stream is lost (or memory is exhausted)'
+                           % (f.q, a.text(60), _WIDTH[at], _UWIDTH[pt], g.params[k].get('n'), g.q, _UWIDTH[pt]))
+    return n_sites
+
+
 def taint_rule(res, fx, rule='TAINT'):
     res.rule(rule, 'every value decoded from received bytes that reaches a child-reader budget, copy length, pointer offset/index (and, inside the Message parsers, an allocation size) '
                    'is compared against a trusted bound on a dominating branch edge (or clamped / checked by the reader), and tainted +/* feeding a size is overflow-checked', floor=40)
@@ -40,6 +81,7 @@ def taint_rule(res, fx, rule='TAINT'):
             continue
         if re.search(T.RE_READER, f.q):
             continue         # the reader primitives are judged with their parameters tainted (PRIMITIVE rule)
+        sign_extend_sites(res, fx, eng, f, rule)
         for h in eng.sinks_in(f):
             if T.SRC not in h['origins']:
                 continue
@@ -319,6 +361,64 @@ def dest_capacity_rule(res, fx, eng, rule='DEST-CAPACITY'):
                            % (f.q, n.text(40), dst.text(60), ' + '.join(sorted(set([n.text(30)] + ([A.strip_casts(dst)['ch'][1].text(30)] if offvars else []))))))
 
 
+def fail_clean_rule(res, fx):
+    """'a parser that fails leaves its object destructible and reusable'.  The Message parsers create a field in the target (GetOrCreateMessageField) and then fill it from the wire; a field
+    that was created but not filled is in a state the rest of the Message API aborts on.  So: when the call that FILLS a field of *this fails, the parser Clear()s the Message before it
+    returns the error."""
+    res.rule('FAIL-CLEAN', 'in Message::Unflatten and Message::TemplatedUnflatten every return on the error edge of a call that fills a field created in *this (DataUnflattener::ReadFlat on the '
+                           'entry returned by GetOrCreateMessageField; MessageField::TemplatedUnflatten(*this, …)) is preceded by Clear() on every path from that call', floor=2)
+    n = 0
+    for q in ('muscle::Message::Unflatten', 'muscle::Message::TemplatedUnflatten'):
+        for f in [g for g in fx.funcs.values() if g.full and g.q == q and len(g.params) >= 1]:
+            created = set()
+            for c in f.walk():
+                if c.is_call() and (c.get('q') or '').endswith('Message::GetOrCreateMessageField'):
+                    for a in c.args():
+                        a0 = A.strip_casts(a)
+                        if a0['k'] == 'DeclRefExpr' and a0.type().replace('muscle_private::', '').rstrip().endswith('MessageField *'):
+                            created.add(a0.get('d'))
+            fills = []
+            for c in f.walk():
+                if not c.is_call():
+                    continue
+                qn = c.get('q') or ''
+                if qn.endswith('::ReadFlat') and any(x['k'] == 'DeclRefExpr' and x.get('d') in created for a in c.args() for x in a.walk()):
+                    fills.append(c)
+                if qn.endswith('MessageField::TemplatedUnflatten') and c.args() and any(x['k'] == 'CXXThisExpr' for x in c.args()[0].walk()):
+                    fills.append(c)
+            clears = [c for c in f.walk() if c['k'] == 'CXXMemberCallExpr' and (c.get('q') or '') == 'muscle::Message::Clear' and (c.receiver() is None or A.strip_casts(c.receiver())['k'] == 'CXXThisExpr')]
+            for fc in fills:
+                n += 1
+                holders = set()
+                for v in f.walk():
+                    if v['k'] == 'VarDecl' and v['ch'] and fc in list(v['ch'][0].walk()):
+                        holders.add(v.get('d'))
+                bad = None
+                for r in (x for x in f.walk() if x['k'] == 'ReturnStmt'):
+                    on_err = False
+                    for (a, t) in G.atoms_at(f, r):
+                        k_ = P.is_status_test(a)
+                        if k_ is None:
+                            continue
+                        rc = a.receiver() if a['k'] == 'CXXMemberCallExpr' else None
+                        about = rc is not None and (fc in list(rc.walk()) or A.strip_casts(rc).get('d') in holders)
+                        if about and ((k_ == 'err' and t) or (k_ == 'ok' and not t)):
+                            on_err = True
+                    if not on_err:
+                        continue
+                    pf, pr = P.pos_of(f, fc), P.pos_of(f, r)
+                    cps = set(p_ for p_ in (P.pos_of(f, c) for c in clears) if p_)
+                    if pf and pr and C.can_reach(f, pf, set([pr]), avoid_points=cps):
+                        bad = r
+                res.ob('FAIL-CLEAN', f.where(fc), '%s: when `%s` fails the Message is cleared before the error is returned' % (f.q.split('::')[-1], fc.text(50)), bad is None, function=f.q,
+                       key='FAIL-CLEAN|%s|%s' % (f.q, (fc.get('q') or '').split('::')[-1]),
+                       message='%s returns the error of `%s` (line %s) without Clear(): the field that was created for the failed item stays in the Message in its empty state, and the next '
+                               'FlattenedSize()/Flatten()/CalculateChecksum() on that Message object aborts the process (MASSERT "called on empty field")'
+                               % (f.q, fc.text(50), bad.get('l') if bad is not None else ''))
+    if n < 2:
+        raise AnalysisBroken('FAIL-CLEAN: only %d field-filling calls found in the Message parsers' % n)
+
+
 def primitive_rule(res, fx, rule='PRIMITIVE'):
     """obligations on the reader primitives: every parameter that reaches memcpy / pointer advance inside DataUnflattenerHelper is size-checked there;
     RealSizeChecker::IsSizeOkay is `n <= avail`; DataUnflattenerReadLimiter clamps with muscleMin; no Unchecked unflattener in the parse closure."""
@@ -395,6 +495,7 @@ def run(res, tier):
     nul_slot_rule(res, fx)
     borrow_scope_rule(res, fx)
     primitive_rule(res, fx)
+    fail_clean_rule(res, fx)
     entries = []
     missing = []
     for q in PARSE_ENTRIES:
